@@ -9,6 +9,9 @@ CLAIMED = {
  'C13': ('bounded-exhaustive string enumeration + proptest-generated fragment soups against a reference token table (round-trip, position recount, class validity, maximal munch, blank-line metamorphic)',
          'Every string up to length 4 (quick) / 5 (thorough, 1.3e8 strings) over a 42-character alphabet with one representative per lexical character class, every ordered pair of token spellings with three separators, and random fragment soups; each successful lex is judged for lossless round-trip, non-empty tokens, exact (line, column), membership of each token in its class per an independent token table, maximal munch, and stability of blank-line classification under added spaces/tabs.',
          'Trusts the reference token table in model/reflex.rs (a transcription of the language operator spellings and literal forms); CR/FF excluded from the position and whitespace clauses; Err results are never judged.', 'DESIGN.md §3 C13'),
+ 'C02': ('bounded-exhaustive operator pairs/triples + proptest-generated deeper expressions, differential against an independent precedence-climbing parser, plus fully-parenthesised re-parse (metamorphic)',
+         'Every ordered pair (x4 layout/atom variants) and triple (x2) of all 54 operators of an independent operator table, level-representative triples with one operand wrapped in ( ) or { }, level-representative quadruples (thorough) and random deeper expressions with groups; the parse tree must equal the tree a table-driven Pratt parser produces, and re-parsing the fully parenthesised print of the obtained tree must give the same tree modulo Group nodes.',
+         'Trusts the operator table of DESIGN.md Appendix A (model/optable.rs) and the ~100-line reference parser; rejected inputs and lexical merges are counted, never judged.', 'DESIGN.md §3 C02'),
  'C09': ('bounded-exhaustive enumeration + proptest-generated operand tapes against an i128 / IEEE-754 reference',
          'Every ordered pair of the 187-value boundary lattice x 12 binary operators and lattice+float pool x 5 unary operators exhaustively, a 62x62 float/mixed matrix, plus millions of random i32/f64 pairs; each compared on the GarnishNumber methods and on the executed instruction for both data implementations with a wide-integer/IEEE reference. Exhaustive on the stated lattice, sampled beyond it.',
          'Trusts the i128/f64 reference in checks/c09.rs and the platform powf; operands are finite.', 'DESIGN.md §3 C09'),
